@@ -145,17 +145,26 @@ func (p *Parser) ParseWithRecovery(tokens []token.Token) ([]ast.Statement, []err
 
 // ParseWithRecoveryFromModelTokens parses tokenizer output with error recovery.
 func (p *Parser) ParseWithRecoveryFromModelTokens(tokens []models.TokenWithSpan) ([]ast.Statement, []error) {
-	converted, err := convertModelTokens(tokens)
+	// Keep the position mapping: every collected ParseError then carries the
+	// line and column of the token that caused it (without it all errors, and
+	// every diagnostic built from them, point at line 0, column 0).
+	converted, err := convertModelTokensWithPositions(tokens)
 	if err != nil {
 		return nil, []error{fmt.Errorf("token conversion failed: %w", err)}
 	}
-	return p.parseWithRecovery(converted)
+	return p.parseWithRecoveryPositions(converted.Tokens, converted.PositionMapping)
 }
 
 // parseWithRecovery is the internal implementation shared by both public APIs.
 func (p *Parser) parseWithRecovery(tokens []token.Token) ([]ast.Statement, []error) {
+	return p.parseWithRecoveryPositions(tokens, nil)
+}
+
+// parseWithRecoveryPositions is parseWithRecovery with an optional position
+// mapping for tokens (nil: errors carry no source location).
+func (p *Parser) parseWithRecoveryPositions(tokens []token.Token, positions []TokenPosition) ([]ast.Statement, []error) {
 	p.tokens = tokens
-	p.positions = nil // a mapping left by an earlier ParseWithPositions belongs to other tokens
+	p.positions = positions // never a mapping left by an earlier call: it belongs to other tokens
 	p.currentPos = 0
 	if len(tokens) > 0 {
 		p.currentToken = tokens[0]
